@@ -570,7 +570,9 @@ class PkgGen:
              "enums": [], "doc": self.marker(f"module {name}") if r.random() < self.docs * 0.6 else "", "imports": set(),
              "aliases": self.aliases > 0 and (len(name) * 7 + len(pkg_parts)) % 100 < self.aliases * 100,
              # an overloaded function at module level (one implementation)
-             "overload_fn": (len(name) + 3 * len(pkg_parts)) % 4 == 0}
+             "overload_fn": (len(name) + 3 * len(pkg_parts)) % 4 == 0,
+             # a generic class whose body ENDS with attributes typed by its type variables, as the LAST definition of the module
+             "generic_tail": (len(name) * 3 + len(pkg_parts)) % 5 == 2}
         used = self.global_used if self.unique_top_names else set()
         local = []
         for _ in range(r.choice([0, 1, 2, 3])):
@@ -650,7 +652,7 @@ class PkgGen:
         # un-annotated function whose only `return`s are the implicit ones of lambdas.  No random draws.
         m0 = modules[0]
         if not (set(m0["pkg"] + [m0["name"]]) & {"test", "tests", "docs"}) and "zz_gather" not in self.global_used:
-            self.global_used.update({"zz_gather", "zz_hook", "zz_clip", "zz_when", "zz_quote"})
+            self.global_used.update({"zz_gather", "zz_hook", "zz_clip", "zz_when", "zz_quote", "_ZzHidden", "ZzService", "ZzOldStyle"})
             par = lambda n, k, a, d=None: {"name": n, "kind": k, "ann": a, "default": d, "doc": "", "doc_type": None}
             base = {"kind": "function", "method_kind": None, "returns": None, "doc": "", "result_doc": "", "is_property": False,
                     "result_doc_type": None, "rest_type_first": True}
@@ -675,6 +677,22 @@ class PkgGen:
                                                par("zz_unquote", "POSITION_OR_NAME", ("str",), (repr('q\\"x'), 'q\\"x')),
                                                par("zz_eol", "POSITION_OR_NAME", ("str",), (repr("nl\nx"), "nl\nx")),
                                                par("zz_mode", "POSITION_OR_NAME", ("lit", 'q"t', "b\\s", "plain"), (repr('q"t'), 'q"t'))]})
+            # dunder members (other than __init__) of a PRIVATE class: private with their class, although the module path is
+            # public; a public subclass must not inherit them into its stub
+            dm = lambda n, ret, ps=(): {**base, "name": n, "method_kind": "instance", "ret": ret, "params": list(ps)}
+            qh = f"{m0['qname']}._ZzHidden"
+            m0["classes"].append({"kind": "class", "name": "_ZzHidden", "qname": qh, "bases": [], "init": None, "inst_attrs": [],
+                                  "attrs": [{"name": "__zz_tag__", "ann": ("int",), "value": "0", "doc": ""}],
+                                  "methods": [dm("__getitem__", ("int",), [par("zz_i", "POSITION_OR_NAME", ("int",))]),
+                                              dm("__contains__", ("bool",), [par("zz_x", "POSITION_OR_NAME", ("int",))])],
+                                  "classes": [], "doc": "", "extras": {}})
+            m0["classes"].append({"kind": "class", "name": "ZzService", "qname": f"{m0['qname']}.ZzService", "bases": [("_ZzHidden", qh)],
+                                  "init": None, "inst_attrs": [], "attrs": [], "methods": [dm("zz_run", ("int",))], "classes": [],
+                                  "doc": "", "extras": {}})
+            # a class that names `object` among its bases (old style)
+            m0["classes"].append({"kind": "class", "name": "ZzOldStyle", "qname": f"{m0['qname']}.ZzOldStyle", "bases": [("object", "builtins.object")],
+                                  "init": None, "inst_attrs": [], "attrs": [{"name": "zz_o", "ann": ("int",), "value": "0", "doc": ""}],
+                                  "methods": [], "classes": [], "doc": "", "extras": {}})
             m0["functions"].append({**base, "name": "zz_hook", "ret": None, "params": [],
                                     "extra_body": ["zz_cb = lambda: 0", "zz_cb2 = lambda: ('a', True)", "zz_cb3 = lambda: None"]})
         # members of another module reached through the module object (`import a.b as m; m.f`, `m.C`): expression types
@@ -746,8 +764,17 @@ class PkgGen:
                              "doc": self.marker("param zz_c"), "doc_type": (other, False)}],
                  "ret": hint, "returns": None, "doc": self.marker("function zz_conflict"), "result_doc": self.marker("result of zz_conflict"),
                  "is_property": False, "result_doc_type": (other, False), "rest_type_first": True}
+            # a mapping whose key and value types are exchanged between hint and docstring: different types
+            d1, d2 = ("dict", ("str",), ("int",)), ("dict", ("int",), ("str",))
+            f2 = {"kind": "function", "name": "zz_swapped", "method_kind": None,
+                  "params": [{"name": "zz_m", "kind": "POSITION_OR_NAME", "ann": d1, "default": None,
+                              "doc": self.marker("param zz_m"), "doc_type": (d2, False)},
+                             {"name": "zz_l", "kind": "POSITION_OR_NAME", "ann": ("list", d1), "default": None,
+                              "doc": self.marker("param zz_l"), "doc_type": (("list", d2), False)}],
+                  "ret": d1, "returns": None, "doc": self.marker("function zz_swapped"), "result_doc": self.marker("result of zz_swapped"),
+                  "is_property": False, "result_doc_type": (d2, False), "rest_type_first": True}
             mu = {"kind": "module", "name": "zz_cfg_user", "pkg": [self.root], "qname": f"{self.root}.zz_cfg_user", "classes": [],
-                  "functions": [f], "enums": [], "doc": "", "imports": set(), "aliases": False, "overload_fn": False,
+                  "functions": [f, f2], "enums": [], "doc": "", "imports": set(), "aliases": False, "overload_fn": False,
                   "plain_imports": [mb["qname"]]}
             modules += [ma, mb, mu]
         # a sub-package whose directory name ENDS with an underscore (`types_`, `async_`): a non-final segment of the dotted
@@ -793,6 +820,25 @@ class PkgGen:
                 # a package enters mypy's build graph only through one of its modules
                 filler = dict(user, name=f"zz_fill_{pk}", params=[])
                 modules.append(blank([self.root, pk], "zz_m", [], [filler]))
+            # two sub-packages with a module of ONE name that defines a class of ONE name (`pkg/zz_ord/zz_models.ZzRec`,
+            # `pkg/zz_bil/zz_models.ZzRec`), a second class next to one of them, and a module that refers to all three by
+            # their dotted paths: the last two segments of a class id do not identify the class.  No draws.
+            recs = {}
+            for pk in ("zz_ord", "zz_bil"):
+                qm = f"{self.root}.{pk}.zz_models"
+                cs = [dict(thing, name="ZzRec", qname=f"{qm}.ZzRec")]
+                if pk == "zz_bil":
+                    cs.append(dict(thing, name="ZzInvoice", qname=f"{qm}.ZzInvoice"))
+                modules.append(blank([self.root, pk], "zz_models", cs, []))
+                inits[(self.root, pk)] = []
+                recs[pk] = qm
+            qpar = lambda n, cn, qm: {"name": n, "kind": "POSITION_OR_NAME", "ann": ("qcls", cn, f"{qm}.{cn}"), "default": None,
+                                      "doc": "", "doc_type": None}
+            serve = dict(user, name="zz_serve", params=[qpar("zz_a", "ZzRec", recs["zz_ord"]), qpar("zz_b", "ZzRec", recs["zz_bil"]),
+                                                        qpar("zz_i", "ZzInvoice", recs["zz_bil"])])
+            svc = blank([self.root], "zz_service", [], [serve])
+            svc["plain_imports"] = [recs["zz_ord"], recs["zz_bil"]]
+            modules.append(svc)
         if self.dual > 0 and (len(modules[0]["name"]) * 3 + len(modules)) % 100 < self.dual * 100:
             # `from pkg import _impl as zz_helpers` + `from pkg._impl import *`: the re-export set of that module holds
             # (package, alias) and (package, None) — a tie on the package id that only the alias can break.  No draws.
@@ -1029,6 +1075,9 @@ def module_src(m, style: str) -> str:
     for f in m["functions"]:
         lines += func_src(f, "", style)
         lines.append("")
+    if m.get("generic_tail"):
+        lines += ["from typing import Generic, TypeVar", 'ZzK = TypeVar("ZzK")', 'ZzV = TypeVar("ZzV")', "",
+                  "class ZzEntry(Generic[ZzK, ZzV]):", "    zz_key: ZzK", "    zz_value: ZzV", ""]
     lines += m.get("raw_tail", [])       # verbatim source (constructs the specification language has no term for)
     ma = m.get("member_access")
     if ma:
